@@ -171,7 +171,7 @@ CLAIMS = {
         technique="Lean 4 structural theorems over all answers (values and failures) of chip and bus + fault injection at each transfer index with recovery traffic",
         design="7 C11"),
     'C12': dict(
-        text="Proof for the encode clauses and for the decoders (carrier, frequency error in both modulations, packet strength, SNR, FSK RSSI, LoRa bandwidth); the closest-value claim for arbitrary receiver bandwidths and the raw temperature by monitors. The float code is modelled in "
+        text="Proof for the encode clauses and for the decoders (carrier, frequency error in both modulations, packet strength, SNR, FSK RSSI, LoRa bandwidth); the raw temperature by monitors. The float code is modelled in "
              "soft-float over Rat (compared bit for bit with gcc on every run); general facts about round-to-nearest are proved once "
              "(Sx/Lemmas/Rnd.lean, FloatOps.lean, FloatSigned.lean - the only files importing Mathlib modules: relative error 2^-p, exactness on integers and dyadics, rounding is odd, "
              "floor(rnd x) >= floor x). Theorems, each for EVERY request in the documented range: C12_set_frequency (all 883 000 001 carriers "
@@ -183,8 +183,10 @@ CLAIMS = {
              "single-precision sum is exact, the result is the datasheet formula truncated toward zero), C12_fsk_frequency_error (all 65536 AFC readings: "
              "within 9/8 Hz of AFC*Fstep, two's complement), C12_lora_frequency_error (all 2^20 RegFei readings x the ten bandwidths: within 9/8 Hz of "
              "FreqError*2^24/Fxosc*BW/500kHz; four roundings, the inexact constant and the truncation accounted for), C12_lora_bandwidth_decode, "
-             "C12_rx_bandwidth_table (each of the 21 datasheet receiver bandwidths is programmed with its datasheet code; kernel-decided). That an ARBITRARY "
-             "requested bandwidth gets the closest of the 21 points, and the raw temperature decode, are decided by the monitors on the real driver only.",
+             "C12_rx_bandwidth_table (each of the 21 datasheet receiver bandwidths is programmed with its datasheet code; kernel-decided), "
+             "C12_rx_bandwidth_closest (EVERY requested bandwidth 2600..250000 Hz, any real number: the programmed code is one of the 21 points and no other point is closer, "
+             "up to the single-precision rounding of the distances: |q-p|(1-2^-24) <= |q-p'|(1+2^-24)+2^-149; a fold-minimum lemma over the driver's own search plus the error bound of the float subtraction). "
+             "Only the raw temperature decode (no datasheet formula beyond the register description) is decided by the monitors on the real driver alone.",
         technique="Lean 4 rounding-error analysis (general lemmas about round-to-nearest) for all inputs + kernel tables + float sweeps on the real driver",
         design="7 C12"),
     'C13': dict(
